@@ -41,7 +41,7 @@ class C11(Prop):
                     yield self.mk("exh", rule, [list(r) for r in P], pv, list(pa), k=1 + cnt % (m + 1))
         N = 500 if tier == "quick" else 8000
         for i in range(N):
-            n = rng.randint(1, 15); m = rng.randint(2, 8)
+            n = rng.randint(1, 15); m = rng.randint(2, 8) if i % 3 else rng.choice([10, 11, 13, 14, 15, 18, 19, 22])
             base = V.rand_profile(rng, n, m)
             a, b = rng.sample(range(m), 2)
             fam = "random"
